@@ -13,7 +13,7 @@ cd $WT
 cp $D/demo.py $WT/demo_seed.py
 PYTHONPATH=$WT timeout 300 /venv/bin/python demo_seed.py > $D/demo_clean.log 2>&1; DC=$?
 if ! git apply $D/patch.diff 2> $D/apply.log; then echo "PATCH DOES NOT APPLY"; cat $D/apply.log; git -C /repo worktree remove --force $WT; exit 3; fi
-TESTS=$(timeout 900 /venv/bin/python -m pytest -q -p no:cacheprovider --timeout=900 test 2>&1 | tail -1)
+TESTS=$(timeout 900 /venv/bin/python -m pytest -q -p no:cacheprovider --timeout=900 test 2>&1 | grep -E "[0-9]+ passed" | tail -1)
 PYTHONPATH=$WT timeout 300 /venv/bin/python demo_seed.py > $D/demo_patched.log 2>&1; DP=$?
 rm -f $WT/demo_seed.py
 cd /verif
